@@ -124,7 +124,7 @@ def _descs(ctx, n):
 
 def correspond(ctx, corr, model_ok):
     from harness import battery
-    battery.run(corr, ['reconnect-producers-wire', 'reconnect-window-requests'])
+    battery.run(corr, ['reconnect-producers-wire', 'reconnect-window-requests', 'messaging-transport-failure'])
     n = ctx.scale(240, 2500)
     runs, crashed = E.run_all(_descs(ctx, n), post=after_close)
     corr.oracle_failures.extend(crashed)
